@@ -163,9 +163,10 @@ func c06NewWriter(dir string, chanCap int, withFlusher bool) *GsfaWriter {
 	if withFlusher {
 		go w.fullBufferWriter()
 		if verifParam("eager", 0) == 1 {
-			// quick tier: the flusher runs its prologue (no shared effect: it reads exiting,
-			// which is still false, and blocks in its select) before the first Push. All later
-			// timings are still explored; the thorough tier does not apply this reduction.
+			// eager=1 (quick tiers and the *-deep obligations): the flusher runs its prologue (no
+			// shared effect: it reads exiting, which is still false, and blocks in its select)
+			// before the first Push. All later timings are still explored; the thorough tiers of
+			// C06.flusher / C06.accum do not apply this reduction.
 			verifC06RunOthers()
 		}
 	} else {
